@@ -836,6 +836,11 @@ def disp7(ctx) -> List[Ob]:
                     from .common import see_through
 
                     d_ = see_through(ctx, re_, k.value) if isinstance(k.value, ast.Name) else k.value
+                    if isinstance(d_, ast.Name):
+                        # a module-level table of keyword arguments (`**backedge_style_kwargs`)
+                        kind_, obj_ = ctx.prog.resolve_dotted(re_.module, d_.id)
+                        if kind_ == "const":
+                            d_ = obj_[1]
                     if isinstance(d_, ast.Dict) and any(isinstance(kk, ast.Constant) and kk.value == "style" and isinstance(vv, ast.Constant) and vv.value == "dashed" for kk, vv in zip(d_.keys, d_.values)):
                         return True
                     if isinstance(d_, ast.Call) and isinstance(d_.func, ast.Name) and d_.func.id == "dict" and any(k2.arg == "style" and isinstance(k2.value, ast.Constant) and k2.value.value == "dashed" for k2 in d_.keywords):
@@ -950,10 +955,15 @@ def disp8(ctx) -> List[Ob]:
     from .common import reverse_lookup_call
 
     rl = None
+    rl_obj = rl_table_arg = None
     for c_ in A.walk_no_nested(io["to_dict"].node):
         r_ = reverse_lookup_call(prog, io["to_dict"], c_) if isinstance(c_, ast.Call) else None
-        if r_ is not None and A.unparse(r_[0].table).split(".")[-1] == "block_type_names":
-            rl = r_[0].fn
+        if r_ is None:
+            continue
+        # the scanned table: the registry itself, or a parameter that the writer binds to the registry
+        tab_ = r_[1] if r_[0].table_param is not None and r_[1] is not None else r_[0].table
+        if A.unparse(tab_).split(".")[-1] == "block_type_names":
+            rl, rl_obj, rl_table_arg = r_[0].fn, r_[0], (r_[1] if r_[0].table_param is not None else None)
             break
     key = "writer looks a class up under its own name"
     inv = _inverted_registry(io["to_dict"]) if rl is None else None
@@ -974,7 +984,8 @@ def disp8(ctx) -> List[Ob]:
     elif rl is None:
         out.append(unresolved("DISP-8", io["to_dict"].qualname, key, ctx.where(io["to_dict"]), "no reverse_lookup helper in to_dict: cannot see how a class is mapped to its type name"))
     else:
-        vparam = [p.arg for p in rl.params if p.arg not in ("self", "cls")][0]
+        xparams_ = [p.arg for p in rl.params if p.arg not in ("self", "cls")]
+        vparam = xparams_[rl_obj.value_param] if rl_obj.value_param is not None and rl_obj.value_param < len(xparams_) else xparams_[0]
         lps = [lp for lp in A.walk_no_nested(rl.node) if isinstance(lp, ast.For)]
         verdict_ = None
         if len(lps) == 1 and isinstance(lps[0].target, ast.Tuple) and len(lps[0].target.elts) == 2:
@@ -985,7 +996,8 @@ def disp8(ctx) -> List[Ob]:
             if isinstance(it, ast.Call) and isinstance(it.func, ast.Name) and it.func.id == "reversed" and it.args:
                 rev_order, it = True, it.args[0]
             ifs = [n for n in lp.body if isinstance(n, ast.If)]
-            if A.unparse(it).split(".")[-2:] == ["block_type_names", "items()"] and len(ifs) == 1 and ifs[0].body and isinstance(ifs[0].body[0], ast.Return) and A.unparse(ifs[0].body[0].value) == kv:
+            scans_registry = A.unparse(it).split(".")[-2:] == ["block_type_names", "items()"] or (rl_table_arg is not None and rl_obj.table_param is not None and A.unparse(it) == f"{xparams_[rl_obj.table_param]}.items()")
+            if scans_registry and len(ifs) == 1 and ifs[0].body and isinstance(ifs[0].body[0], ast.Return) and A.unparse(ifs[0].body[0].value) == kv:
                 t = A.unparse(ifs[0].test)
                 if t in (f"{cv} == {vparam}", f"{vparam} == {cv}", f"{cv} is {vparam}", f"{vparam} is {cv}"):
                     mode = "exact"
